@@ -227,6 +227,7 @@ func init() {
 			gen(nil)
 			// restarts on one Auth object (both tiers)
 			seqs = append(seqs, scramRestartSeqs...)
+			seqs = append(seqs, scramRedialSeqs...)
 			for _, mech := range []string{"SCRAM-SHA-256", "SCRAM-SHA-1"} {
 				for _, seq := range seqs {
 					if !c.Thorough() && mech == "SCRAM-SHA-1" && len(seq) == 3 {
@@ -486,9 +487,14 @@ var scramRestartSeqs = [][]string{
 	{"empty", "first-trunc", "final-bad", "235"}, {"empty", "first-foreign", "final-bad", "235"},
 	{"empty", "first", "first-foreign", "final-bad", "235"}, {"empty", "first", "first-trunc", "final-bad", "235"},
 	{"empty", "first", "final", "first-foreign", "final-bad", "235"},
-	// the same Client dials again ("|"): nothing of the finished exchange is good for the next connection
+
+	{"empty", "first", "empty", "first-trunc", "final-bad", "235"},
+}
+
+// the same Client dials again ("|"): nothing of the finished exchange is good for the next connection (C15 only:
+// a bare 235 on the second connection is the known finding of C15 again)
+var scramRedialSeqs = [][]string{
 	{"empty", "first", "final", "235", "|", "final-stale", "235"}, {"empty", "first", "final", "235", "|", "final-stale"},
 	{"empty", "first", "final", "235", "|", "empty", "final-stale", "235"}, {"empty", "first", "final", "235", "|", "empty", "first", "final", "235"},
 	{"empty", "first", "final", "235", "|", "235"}, {"empty", "first", "535", "|", "final-stale", "235"}, {"empty", "first", "final", "235", "|", "final-empty", "235"},
-	{"empty", "first", "empty", "first-trunc", "final-bad", "235"},
 }
